@@ -46,6 +46,12 @@ var c18Programs = []string{
 	// two function literals, two hash literals and two array literals in one tag (on one line in the canonical layout)
 	`<% let f = fn ( x ) { return x * 2 } let g = fn ( x ) { return x + 7 } %><%= f ( 3 ) %>,<%= g ( 3 ) %>`,
 	`<% let h = { "k" : 1 } let j = { "k" : 2 } let u = [ 1 ] let w = [ 2 ] %><%= h [ "k" ] %><%= j [ "k" ] %><%= u [ 0 ] %><%= w [ 0 ] %>`,
+	// a hash literal that repeats a key (the last value counts, wherever the pairs stand)
+	`<%= { "a" : 1 , "a" : 2 } [ "a" ] %>|<% let d = { "k" : "x" , "j" : 0 , "k" : "y" , "j" : 1 } %><%= d [ "k" ] %><%= d [ "j" ] %>`,
+	// loop bodies that are exactly one statement: a block helper whose block leaves the loop / skips the iteration
+	`<%= for ( v ) in xs { %><%= blk ( ) { %>[<%= v %><% if ( v == 2 ) { break } %>]<% } %><% } %>`,
+	`<%= for ( v ) in xs { %><%= blk ( ) { %>[<% if ( v == 2 ) { continue } %><%= v %>]<% } %><% } %>|<%= for ( v ) in xs { blk ( ) { %><% break %><% } } %>`,
+	`<%= if ( t ) { %><%= blk ( ) { %>one<% } %><% } %><%= for ( v ) in xs { %><%= if ( v == 2 ) { %><% break %><% } %><% } %>`,
 }
 
 var c18Gaps = []string{"\t", "\n", "\r\n", "  ", " # c\n", "", " # c\n # d\n", "\n\n # c\n\t# d\r\n"}
@@ -290,6 +296,16 @@ func c18Run(t *engine.T, shard string) {
 			for _, ins := range []string{" %><%# c %><% ", " %><%# c\n d %><% ", " %><% # lc\n %><% "} {
 				c18Same(t, fmt.Sprintf("ctag prog=%d boundary=%d", idx, gi), canonical, c18Build(parts, map[c18Gap]string{g: ins}), true)
 			}
+		}
+		// ... and a comment tag directly after every closing delimiter (between two tags, before text, at the end)
+		for i, n := 0, 0; i+2 <= len(canonical); i++ {
+			if canonical[i:i+2] != "%>" {
+				continue
+			}
+			for _, ins := range []string{"<%# c %>", "<%#%><%# d\n %>"} {
+				c18Same(t, fmt.Sprintf("ctag-after-tag prog=%d tag=%d", idx, n), canonical, canonical[:i+2]+ins+canonical[i+2:], true)
+			}
+			n++
 		}
 		// all gaps at once
 		for _, a := range c18Gaps[:5] {
